@@ -12,6 +12,10 @@ CLAIMED = {
     text="Theorems (Props/C10.v): OK only after the whole chunk (for machines carrying the computed certificate no_stuck_ok), consumed <= chunk length, the fail state is absorbing for feed and end. Every compiled machine is certified; the gcc-built parser (indirect start pointer) is driven through call histories continuing after FAIL/DONE/finish codes and after each yield, its codes, *start movements, outputs and hooks must agree call by call with the extracted model, and the protocol predicates (FAIL absorbing, OK consumes all, cursor inside the chunk) are evaluated on the binary's own trace.",
     note="Cursor positions on FAIL/DONE/yield are carried by the model's `adv` flag and checked through the call-by-call correspondence; strict-done postponement is covered by the same correspondence, not by a separate theorem. Sampled programs/histories.",
     ref="5 C10"),
+ "C03": dict(cat="proof", tech="Coq proofs over the concrete store model + per-machine certificate + sanitizer-build correspondence",
+    text="Theorems (Props/C03.v): the capacity invariant (array size, counter <= effective size, integers in their C range) holds after start() and after ANY history of feed/end calls on any input; behind the buffer-full test an append is defined and writes inside the array; the test fires exactly at the effective size; a constant is executable iff it fits; the unsigned type the regenerated _integer_containing selects for a bound holds that bound. Every compiled machine is certified appends_guarded; exported constants, defaults and the declared counter/state types are checked statically (incl. capacities 255..65537 and constants of every length around the capacity); ASan+UBSan+LSan builds under all five storage modes are driven over chunked, overflowing inputs, compared call by call with the model, and the length/terminator invariants are checked after every call.",
+    note="Partial with respect to the real heap (malloc failure, allocator behaviour). The sanitizers are the oracle for the binary's undefined behaviour; intra-struct overruns are invisible to ASan and are covered by the static checks and the comparison with the model. Unsafe indexing is excluded (out-of-range is the caller's responsibility).",
+    ref="5 C03"),
  "C04": dict(cat="translation_validation", tech="Coq-verified no-spin certificate checker on exported machines (vm_compute certificates + extracted checker)",
     text="Every machine the current compiler accepts (corpus + generated programs, several -O levels) is exported structurally and must pass NoSpin.nospin_cert; its Coq soundness theorems (no_spin_step, no_spin_feed, yield_progress) give termination of every feed/end call within a bound linear in the chunk, for every state, symbol and data value under every data semantics, and no endless run of yields without progress. A rejected certificate yields a (state, symbol) cycle and an input reaching it.",
     note="Program quantifier sampled. Trusted: Coq kernel; harness/export.py; Machine/Sem.v as the reading of the emitted C control skeleton (tied by the C06 correspondence); extraction+OCaml for the volume tier (a sample is re-certified inside Coq).",
